@@ -65,4 +65,12 @@ Init3 == <<E(1, 10), E(2, 20), E(3, 30)>>
 Init1 == <<E(1, 10)>>
 Init2 == <<E(1, 10), E(2, 20)>>
 Init0 == <<>>
+
+\* deliberately wrong variant of ClrWait for the liveness self-test (the seeded change C11-m5): clear() compares the
+\* current table with the table it is about to continue in instead of the one it left, so once the resize has been
+\* committed it spins for ever
+ClrWaitWrong(t) ==
+  /\ pc[t] = "ClrWait"
+  /\ IF table # loc[t].tb THEN Goto(t, "ClrLoadBin") ELSE UNCHANGED pc
+  /\ UNCHANGED loc /\ UnchHeap /\ UnchTab /\ UnchCtl /\ UnchHist
 =============================================================================
